@@ -714,6 +714,7 @@ func c19Tamper(c *Ctx, ge *GuardEngine) {
 		c.NoteFunc(FuncName(fn))
 		// locate the If testing the result of the named call
 		found, ok := false, false
+		why := s.what + " returns without setErr: the session stays usable after a modified frame"
 		for _, b := range fn.Blocks {
 			if len(b.Instrs) == 0 {
 				continue
@@ -728,6 +729,11 @@ func c19Tamper(c *Ctx, ge *GuardEngine) {
 			for _, succ := range b.Succs {
 				if blockCallsNamed(succ, "setErr") && blockReturns(succ) {
 					ok = true
+					// the recorded error must be the failure itself (setErr(nil) is a no-op)
+					if arg := namedCallArg(succ, "setErr"); arg != nil && !isFailureValue(arg, ifi.Cond) {
+						ok = false
+						why = "setErr is called with a value that is not the detected failure (a nil error leaves the session open)"
+					}
 				}
 			}
 		}
@@ -735,7 +741,7 @@ func c19Tamper(c *Ctx, ge *GuardEngine) {
 			c.Undecided("tamper-closes", s.fn, c.P.Pos(fn.Pos()), "no branch on the result of "+s.cond+" found")
 			continue
 		}
-		c.Check(ok, "tamper-closes", s.fn, c.P.Pos(fn.Pos()), ifElse(ok, s.what+" records the error with setErr before returning it", s.what+" returns without setErr: the session stays usable after a modified frame"))
+		c.Check(ok, "tamper-closes", s.fn, c.P.Pos(fn.Pos()), ifElse(ok, s.what+" records the error with setErr before returning it", why))
 	}
 	// setErr closes the connection
 	if fn := c.P.Func("rhp/v2.(*Transport).setErr"); fn != nil {
@@ -1086,4 +1092,43 @@ func countCallsTo(fn *ssa.Function, name string) int {
 		}
 	}
 	return n
+}
+
+// namedCallArg returns the last argument of the first call to a function / func-typed field called name in b.
+func namedCallArg(b *ssa.BasicBlock, name string) ssa.Value {
+	for _, in := range b.Instrs {
+		call, ok := in.(*ssa.Call)
+		if !ok || len(call.Call.Args) == 0 {
+			continue
+		}
+		if f := call.Call.StaticCallee(); f != nil && f.Name() == name {
+			return call.Call.Args[len(call.Call.Args)-1]
+		}
+		if ua, ok := call.Call.Value.(*ssa.UnOp); ok {
+			if fa, ok := ua.X.(*ssa.FieldAddr); ok {
+				if st, ok := fa.X.Type().Underlying().(*types.Pointer); ok {
+					if sx, ok := st.Elem().Underlying().(*types.Struct); ok && sx.Field(fa.Field).Name() == name {
+						return call.Call.Args[len(call.Call.Args)-1]
+					}
+				}
+			}
+		}
+	}
+	return nil
+}
+
+// isFailureValue: v is the error the branch condition tested against nil, or a freshly constructed error.
+func isFailureValue(v ssa.Value, cond ssa.Value) bool {
+	if call, ok := v.(*ssa.Call); ok {
+		if f := call.Call.StaticCallee(); f != nil && f.Pkg != nil {
+			pp := f.Pkg.Pkg.Path()
+			if (pp == "errors" && f.Name() == "New") || (pp == "fmt" && f.Name() == "Errorf") {
+				return true
+			}
+		}
+	}
+	if bo, ok := cond.(*ssa.BinOp); ok {
+		return bo.X == v || bo.Y == v
+	}
+	return false
 }
